@@ -144,6 +144,19 @@ def main():
             print('%-45s %s' % (name, '  '.join('%s:%s(%.0fs)' % (p, 'KILLED' if v['killed'] else ('rc%d-SURVIVED' % v['rc']), v['wall']) for p, v in r['results'].items())))
         sys.stdout.flush()
     json.dump(out, open(os.path.join(VERIF, '.run', 'mutants_last.json'), 'w'), indent=1)
+    if '--seeded' in sys.argv:
+        for r in out:
+            mp = os.path.join(VERIF, 'seeded', r['name'], 'meta.json')
+            if 'results' in r and os.path.exists(mp):
+                m = json.load(open(mp))
+                det = set(m.get('detected_by', [])); mis = set(m.get('missed_by', []))
+                for p, v in r['results'].items():
+                    (det if v['killed'] else mis).add(p)
+                    (mis if v['killed'] else det).discard(p)
+                m['detected_by'] = sorted(det); m['missed_by'] = sorted(mis)
+                m.setdefault('what_i_ran', 'tools/mutants.py --seeded %s: git worktree of /repo HEAD + git apply patch.diff, VERIF_REPO=<worktree> python3 check.py <ID> --tier %s' % (r['name'], tier))
+                m['first_violation'] = {p: v['msg'] for p, v in r['results'].items() if v['killed']}
+                json.dump(m, open(mp, 'w'), indent=1)
 
 
 if __name__ == '__main__':
